@@ -31,7 +31,7 @@ LitsT == {"0", "1", "2", "3", "0.5", "2.5"}
 LitsZ == {"0", "2", "2.5"}
 LitsTwo == {"2", "0.5"}
 LitsThree == {"0", "3", "2.5"}
-FamAll == {"pairs", "unbin", "tricky"}
+FamAll == {"pairs", "unbin", "tricky", "scale"}
 FamPairs == {"pairs"}
 FamUn == {"unbin", "tricky"}
 NoFam == {}
@@ -74,7 +74,19 @@ Tricky(top) ==
      {Un(top, Bin(o, L(a), Un(u2, L(b)))) : o \in BinOps, u2 \in UnOps, a \in Lits2, b \in Lits2}
    ELSE {})
 
-Trees(top) == (IF "pairs" \in Families THEN Pairs(top) ELSE {})
+\* x e y with integer mantissas that end in zeros and small exponents of either sign (the integer path of
+\* the e operator strips / appends zeros), bare, under a product and inside a sum
+ScaleM == {"10", "400", "5000", "12", "2.5"}
+ScaleK == {"1", "2", "3", "4"}
+ScaleE == {Bin("e", L(m), Un("-", L(k))) : m \in ScaleM, k \in ScaleK}
+          \cup {Bin("e", L(m), L(k)) : m \in ScaleM, k \in ScaleK}
+          \cup {Bin("e", Bin("*", L("2"), L(m)), Un("-", L(k))) : m \in ScaleM, k \in ScaleK}
+Scale(top) ==
+  IF top = "e" THEN ScaleE
+  ELSE IF top = "+" THEN {Bin("+", L("3"), Bin("*", t, L("4"))) : t \in ScaleE}
+  ELSE {}
+
+Trees(top) == (IF "scale" \in Families THEN Scale(top) ELSE {}) \cup (IF "pairs" \in Families THEN Pairs(top) ELSE {})
               \cup (IF "unbin" \in Families THEN UnBin(top) ELSE {})
               \cup (IF "tricky" \in Families THEN Tricky(top) ELSE {})
 
